@@ -18,7 +18,7 @@
 (***************************************************************************)
 EXTENDS Values
 
-\* env: [vars, line, headers, meta, k, matchCount, scanCount, totalData]
+\* env: [vars, line, headers, meta, k, matchCount, scanCount, totalData, valid, stopped]
 HeaderPos(headers, t) ==
   IF \E j \in 1..Len(headers) : headers[j] = t
     THEN CHOOSE j \in 1..Len(headers) : headers[j] = t /\ \A x \in 1..(j-1) : headers[x] # t
@@ -50,6 +50,8 @@ RefText(it, env) ==
            [] it.nameS = "count_matches" -> IntText(env.matchCount)
            [] it.nameS = "count_scans"   -> IntText(env.scanCount)
            [] it.nameS = "total_lines"   -> IntText(env.totalData)
+           [] it.nameS = "valid"         -> IF env.valid THEN T_True ELSE T_False
+           [] it.nameS = "stopped"       -> IF env.stopped THEN T_True ELSE T_False
            [] OTHER -> it.nameT
     [] OTHER -> <<>>
 
